@@ -83,3 +83,39 @@ def gen(server):
     return "\n".join(out)
 import sys
 print(gen(True)); print(gen(False))
+
+def gen_ticket():
+    S=[]
+    for nm,idn,fld,rn,extra in [("1","idBidiLocal","initialMaxStreamDataBidiLocal","rn_bidiLocal",""),
+                          ("2","idBidiRemote","initialMaxStreamDataBidiRemote","rn_bidiRemote",""),
+                          ("3","idUni","initialMaxStreamDataUni","rn_uni",""),
+                          ("4","idInitialMaxData","initialMaxData","rn_maxData",""),
+                          ("5","idStreamsBidi","maxBidiStreamNum","rn_streamsBidi"," (by have := hv.bidi; omega)"),
+                          ("6","idStreamsUni","maxUniStreamNum","rn_streamsUni"," (by have := hv.uni; omega)"),
+                          ("7","idActiveConnectionIDLimit","activeConnectionIDLimit","rn_cidLimit"," (by have := hv.cidLimit; omega)")]:
+        f=f"(fun q => {{ q with {fld} := p.{fld} }})"
+        S.append((nm,f"[{idn}]",f,"false","false",
+                  f"S_num perspectiveServer {idn} p.{fld} _ _ {f} (by decide) h{nm} (fun rest q => {rn} _ rest (itemsFit_varintParam _ _ h{nm}).2{extra} q)"))
+    f="(fun q => { q with maxDatagramFrameSize := match p.maxDatagramFrameSize with | some v => some v | none => q.maxDatagramFrameSize })"
+    S.append(("8","(if p.maxDatagramFrameSize.isSome then [idMaxDatagramFrameSize] else [])",f,"false","false",
+              f"S_numOpt perspectiveServer idMaxDatagramFrameSize p.maxDatagramFrameSize (fun v => v) _ _ {f} (by decide) h8 (fun v hc rest q => by rw [rn_datagram _ rest (by rw [hc] at h8; exact (itemsFit_varintParam _ _ h8).2) q, hc]) (fun hc q => by show Params.mk .. = _; rw [hc])"))
+    S.append(("9","(if p.enableResetStreamAt then [idResetStreamAt] else [])",
+              "(fun q => { q with enableResetStreamAt := p.enableResetStreamAt || q.enableResetStreamAt })","false","false",
+              "S_rsa perspectiveServer p.enableResetStreamAt _ _"))
+    st="{ p := p0 }"
+    for (n,ids,f,o,i,pf) in S:
+        st=f"(upd {st}\n      {ids}\n      {f} {o} {i})"
+    out=[]
+    out.append(f"/-- the loop state after `UnmarshalFromSessionTicket` has read what `MarshalForSessionTicket` wrote -/\ndef stTicket (p : Params) : LoopSt :=\n  {st}\n")
+    pat="h1"
+    for k in range(2,10): pat=f"⟨{pat}, h{k}⟩"
+    out.append(f"""theorem loopTicket (p : Params) (hv : ValidTicket p)
+    (hfit : itemsFit (ticketItems p) = true) :
+    ∃ rest, itemsBytes (ticketItems p) = enc marshalingVersion ++ rest ∧
+      L perspectiveServer rest {{ p := p0 }} = .ok (stTicket p) := by
+  unfold ticketItems at hfit ⊢
+  simp only [itemsFit_append, Bool.and_eq_true, itemsFit_nil, itemsFit_v] at hfit
+  obtain ⟨⟨hver, _⟩, h9⟩ := hfit
+  obtain ⟨{pat.replace('⟨h1, h2⟩','⟨⟨hver, h1⟩, h2⟩',1) if False else pat}⟩ := hver
+  sorry""")
+    return "\n".join(out), S
